@@ -18,7 +18,7 @@ MANIFEST = dict(
          "monitor recomputes the in-flight values from the accepted commitment contents.  C06_balance_rule_is_source: the "
          "model's balance rule IS the source's - Gen/PaymentsGen.v is regenerated on every run from "
          "SimpleValidator::validate_payment_balance by tools/gen_rustfn.py and proved equal to balance_ok (default filter, "
-         "both build profiles, amounts that fit u64).  C06_payment_check_is_source / C06_payment_check_is_validate_payments: the payment check IS the source's - NodeState::validate_payments (whole body) with RoutedPayment::updated_incoming_outgoing and the other methods it uses, validate_payment_cltv and enforce_balance is translated statement by statement on every run (Gen/NodePaymentsGen.v; maps and sets as association lists, the hash set visited in an arbitrary order) and proved to accept exactly when every hash passes the model's hash_ok, for every well-formed source-level state and every order of visiting (assumed: the CLTV-delta rule of the source, which the model does not have, passes; enforce_balance off; the three tags not downgraded; no u64 overflow).  C06_payment_booking_is_source: RoutedPayment::apply is the ledger update of apply_one C06_payment_booking_is_apply_payments: NodeState::apply_payments (whole body, state-passing: entry API, issued-invoice marking, CLTV bounds, RoutedPayment::apply per hash) never panics and leaves a state that abstracts to the model's apply_payments, for every visiting order (premises: no issued invoice among the hashes, enforce_balance off - the parts outside the model).  C06_fulfil_is_source: NodeState::htlc_fulfilled (whole body, state-passing) abstracts to the PFulfil step (preimage recorded only in an existing record; known / led / inv unchanged).  C06_prune_is_source: is_forwarded_payment_prunable = prunable and no issued invoice for the hash (issued invoices are not in the model).  C06_prune_step_is_source: NodeState::prune_forwarded_payments (whole body, state-passing; retain with a closure that raises a captured flag) leaves known / pre restricted to the records that are not dropped and led / inv / both invoice maps unchanged, returns whether a record was dropped, and is the PHeartbeat step when no prunable record has an issued invoice.  C06_summarize_is_source / C06_summaries_are_source: EnforcementState::summarize_payments, ::incoming_payments_summary and ::payments_summary (whole bodies, Gen/PaymentSummariesGen.v: entry().and_modify().or_insert(), retain, the consuming loop over a hash map in an arbitrary order) never panic and return exactly in_val / out_val on in_keys / out_keys, and the hash set built from them is sum_keys - the premises of the validate_payments / apply_payments theorems (HTLC values summing within u64).  Props/Joint.v restates C06 (and "
+         "both build profiles, amounts that fit u64).  C06_payment_check_is_source / C06_payment_check_is_validate_payments: the payment check IS the source's - NodeState::validate_payments (whole body) with RoutedPayment::updated_incoming_outgoing and the other methods it uses, validate_payment_cltv and enforce_balance is translated statement by statement on every run (Gen/NodePaymentsGen.v; maps and sets as association lists, the hash set visited in an arbitrary order) and proved to accept exactly when every hash passes the model's hash_ok, for every well-formed source-level state and every order of visiting (assumed: the CLTV-delta rule of the source, which the model does not have, passes; enforce_balance off; the three tags not downgraded; no u64 overflow).  C06_payment_booking_is_source: RoutedPayment::apply is the ledger update of apply_one C06_payment_booking_is_apply_payments: NodeState::apply_payments (whole body, state-passing: entry API, issued-invoice marking, CLTV bounds, RoutedPayment::apply per hash) never panics and leaves a state that abstracts to the model's apply_payments, for every visiting order (premises: no issued invoice among the hashes, enforce_balance off - the parts outside the model).  C06_fulfil_is_source: NodeState::htlc_fulfilled (whole body, state-passing) abstracts to the PFulfil step (preimage recorded only in an existing record; known / led / inv unchanged).  C06_prune_is_source: is_forwarded_payment_prunable = prunable and no issued invoice for the hash (issued invoices are not in the model).  C06_prune_step_is_source: NodeState::prune_forwarded_payments (whole body, state-passing; retain with a closure that raises a captured flag) leaves known / pre restricted to the records that are not dropped and led / inv / both invoice maps unchanged, returns whether a record was dropped, and is the PHeartbeat step when no prunable record has an issued invoice.  C06_summarize_is_source / C06_summaries_are_source: EnforcementState::summarize_payments, ::incoming_payments_summary and ::payments_summary (whole bodies, Gen/PaymentSummariesGen.v: entry().and_modify().or_insert(), retain, the consuming loop over a hash map in an arbitrary order) never panic and return exactly in_val / out_val on in_keys / out_keys, and the hash set built from them is sum_keys - the premises of the validate_payments / apply_payments theorems (HTLC values summing within u64).  Auxiliary, not deciding (Props/C06Aux.v, reported under coverage.auxiliary): the CLTV-delta rule inside the same validate_payments over the translated source - an accepting validate_payments implies outgoing_cltv_max < incoming_cltv_min and a margin of at least policy.cltv_delta for every record of the summaries with both bounds, a record that breaks the rule is refused whatever the amounts, RoutedPayment::apply only tightens the bounds, and after any sequence of bookings the stored bounds are the extrema of the expiries booked.  Props/Joint.v restates C06 (and "
          "C01-C03) over joint histories of Model/Joint.v, where the enforcement state machines of all channels and the "
          "ledger run together and the payment verdict of every update is computed instead of supplied; the same histories are "
          "compared with that model too (reply, ledger, and every channel's enforcement state in memory and in the store).",
